@@ -1,7 +1,7 @@
 (* props/C40.v — property theorems for C40 (remote write delivers every sample in order despite
    resharding and retries).  Statements only; proofs are in proof/RemoteQueueProofs.v.
 
-   [run relab bsz nbq ext n0 ops] is the state of a queue manager started with n0 shards after ANY
+   [run relab bsz nbq ext old_flush n0 ops] is the state of a queue manager started with n0 shards after ANY
    list [ops] of atomic steps of the goroutines involved (watcher: OStore / OReset / OLookup /
    OEnqueue; runShard k: OTake / OTimer / OSend with outcome Ok | Recoverable | Unrecoverable;
    stop(): OSoft, the FlushAndShutdown goroutines OFlushPush / OFlushClose, OHard when the flush
@@ -14,23 +14,25 @@
    log s      = every WriteClient.Store call with its outcome, in order
    delivered  = the samples of the successful calls;  attempted = the samples of all calls
    lossy s    = a batch was abandoned (unrecoverable error, or hard shutdown at the flush deadline)
-   flushrace s= runShard's timer took q.batch between the two critical sections of FlushAndShutdown *)
+   flushrace s= runShard's timer took a q.batch that tryEnqueueingBatch had already put on the channel *)
 From Coq Require Import List ZArith Bool.
 From Verif Require Import model.RemoteQueue.
 From Verif Require Import proof.RemoteQueueProofs.
 Import ListNotations.
 Open Scope Z_scope.
 
-(* Every sample, per series in WAL order.  Full statement wanted by the property: for ALL ops with
-   lossy = false, per series  delivered ++ outstanding = fed.  That statement is false of the
-   faithful model because of the flush/timer race (C40_no_dup_unconditional_refuted); what is
-   proved, for all interleavings without that race event: at every moment the accepted samples of a
-   series are exactly the delivered ones followed by the ones still queued in the series' single
-   shard / in flight / pending in Append, in order -- whatever the reshards, however often sends
-   fail recoverably -- and once nothing is queued any more, delivered = accepted. *)
-Theorem C40_per_series_exact_partial : forall relab bsz nbq ext n0 ops r, (0 < n0)%nat ->
-  let s := run relab bsz nbq ext n0 ops in
-  lossy s = false -> flushrace s = false ->
+(* All theorems are about the code as it is now, i.e. [run .. false ..] (old_flush = false, after fix
+   dca118dfcb); [run .. true ..] is the code before that fix, kept for C40_no_dup_old_refuted. *)
+
+(* Every sample, per series in WAL order.  For all interleavings in which no batch is abandoned
+   (the property's "failures recover within the flush deadline"): at every moment the accepted
+   samples of a series are exactly the delivered ones followed by the ones still queued in the
+   series' single shard / in flight / pending in Append, in order -- whatever the reshards,
+   however often sends fail recoverably -- and once nothing is queued any more,
+   delivered = accepted. *)
+Theorem C40_per_series_exact : forall relab bsz nbq ext n0 ops r, (0 < n0)%nat ->
+  let s := run relab bsz nbq ext false n0 ops in
+  lossy s = false ->
   fr r (fed s) = fr r (delivered (log s)) ++ outstanding s r
   /\ (quiescent s = true -> fr r (fed s) = fr r (delivered (log s))).
 Proof. exact per_series_exact. Qed.
@@ -38,63 +40,68 @@ Proof. exact per_series_exact. Qed.
 (* Order and uniqueness in the form of the property text: ids are unique in the feed; everything
    delivered was accepted; nothing is delivered twice; per series the delivered samples are a
    prefix of the accepted ones (so in WAL order, without gaps). *)
-Theorem C40_in_order_once_partial : forall relab bsz nbq ext n0 ops, (0 < n0)%nat ->
-  let s := run relab bsz nbq ext n0 ops in
-  lossy s = false -> flushrace s = false ->
+Theorem C40_in_order_once : forall relab bsz nbq ext n0 ops, (0 < n0)%nat ->
+  let s := run relab bsz nbq ext false n0 ops in
+  lossy s = false ->
   NoDup (map i_id (fed s))
   /\ incl (delivered (log s)) (fed s)
   /\ NoDup (map i_id (delivered (log s)))
   /\ forall r, exists rest, fr r (fed s) = fr r (delivered (log s)) ++ rest.
 Proof. exact delivered_in_order_once. Qed.
 
-(* When no send fails no sample is sent twice (no hard shutdown, no flush/timer race). *)
-Theorem C40_no_dup_without_failure_partial : forall relab bsz nbq ext n0 ops, (0 < n0)%nat ->
-  let s := run relab bsz nbq ext n0 ops in
-  all_ok (log s) = true -> lossy s = false -> flushrace s = false ->
+(* When no send fails (and no stop() runs into the flush deadline) no sample is sent twice. *)
+Theorem C40_no_dup_without_failure : forall relab bsz nbq ext n0 ops, (0 < n0)%nat ->
+  let s := run relab bsz nbq ext false n0 ops in
+  all_ok (log s) = true -> lossy s = false ->
   NoDup (map i_id (attempted (log s))).
 Proof. exact no_dup_without_failure. Qed.
 
-(* The condition flushrace = false cannot be dropped: one shard, no failure, no reshard, only
-   Stop(): the timer of runShard fires after tryEnqueueingBatch has put the partial batch on the
-   channel and before FlushAndShutdown clears q.batch; both samples are sent twice.  Replayed on
-   the real queue by the harness (shape key flush-timer-duplicate). *)
-Theorem C40_no_dup_unconditional_refuted :
-  exists ops, let s := run relab_id 3 1 [] 1 ops in
+(* Before fix dca118dfcb that statement was false: one shard, no failure, no reshard, only Stop():
+   the timer of runShard fires after tryEnqueueingBatch has put the partial batch on the channel
+   and before FlushAndShutdown clears q.batch; both samples are sent twice.  Reproduced on the real
+   queue and on a real QueueManager before the fix; both reproducers are regression cases now. *)
+Theorem C40_no_dup_old_refuted :
+  exists ops, let s := run relab_id 3 1 [] true 1 ops in
     all_ok (log s) = true /\ lossy s = false /\ quiescent s = true
     /\ map i_id (attempted (log s)) = [0; 1; 0; 1].
-Proof. exact no_dup_unconditional_refuted. Qed.
+Proof. exact no_dup_old_refuted. Qed.
+
+(* The flush/timer race event cannot happen any more, for any interleaving. *)
+Theorem C40_no_flush_race : forall relab bsz nbq ext n0 ops, (0 < n0)%nat ->
+  flushrace (run relab bsz nbq ext false n0 ops) = false.
+Proof. exact flushrace_run. Qed.
 
 (* Within an epoch (between two start() calls) all queued samples of a series sit in one shard. *)
-Theorem C40_one_shard_per_series_partial : forall relab bsz nbq ext n0 ops, (0 < n0)%nat ->
-  let s := run relab bsz nbq ext n0 ops in
-  lossy s = false -> flushrace s = false ->
+Theorem C40_one_shard_per_series : forall relab bsz nbq ext n0 ops, (0 < n0)%nat ->
+  let s := run relab bsz nbq ext false n0 ops in
+  lossy s = false ->
   forall k sh x, nth_error (shards s) k = Some sh -> In x (pipe sh) ->
                  shard_of (length (shards s)) (i_ref x) = k.
 Proof. exact one_shard_per_series. Qed.
 
-(* Labels, unconditionally (failures, hard shutdown and the race included): every sample in any
-   Store call, successful or not, was accepted by Append, and its labels are exactly what
-   relabelling made of (a stored label set of that series + external labels). *)
+(* Labels, unconditionally (failures and hard shutdown included): every sample in any Store call,
+   successful or not, was accepted by Append, and its labels are exactly what relabelling made of
+   (a stored label set of that series + external labels). *)
 Theorem C40_labels : forall relab bsz nbq ext n0 ops x,
-  In x (attempted (log (run relab bsz nbq ext n0 ops))) ->
-  In x (fed (run relab bsz nbq ext n0 ops))
+  In x (attempted (log (run relab bsz nbq ext false n0 ops))) ->
+  In x (fed (run relab bsz nbq ext false n0 ops))
   /\ exists raw seg, In (OStore (i_ref x) raw seg) ops /\ relab (add_ext ext raw) = Some (i_lbl x).
 Proof. exact sent_provenance. Qed.
 
 (* No sample of a dropped series is sent, unconditionally. *)
 Theorem C40_dropped_never_sent : forall relab bsz nbq ext n0 ops r,
   (forall raw seg, In (OStore r raw seg) ops -> relab (add_ext ext raw) = None) ->
-  forall x, In x (attempted (log (run relab bsz nbq ext n0 ops))) -> i_ref x <> r.
+  forall x, In x (attempted (log (run relab bsz nbq ext false n0 ops))) -> i_ref x <> r.
 Proof. exact dropped_never_sent. Qed.
 
 (* enqueue never runs into a closed queue (send on closed channel) and never divides by zero. *)
 Theorem C40_no_panic : forall relab bsz nbq ext n0 ops, (0 < n0)%nat ->
-  panicked (run relab bsz nbq ext n0 ops) = false.
+  panicked (run relab bsz nbq ext false n0 ops) = false.
 Proof. exact no_panic. Qed.
 
 (* Every sample handed to Append is accepted or counted in droppedSamplesTotal. *)
 Theorem C40_append_accounting : forall relab bsz nbq ext n0 ops,
-  let s := run relab bsz nbq ext n0 ops in
+  let s := run relab bsz nbq ext false n0 ops in
   nextid s = Z.of_nat (length (fed s)) + n_old s + n_dropped s + n_unint s.
 Proof. exact append_accounting. Qed.
 
@@ -102,7 +109,7 @@ Proof. exact append_accounting. Qed.
    5; a recoverable failure retried in place, a sample pending across a reshard to three shards,
    a too-old sample, a dropped series, an unknown series; the run ends quiescent and lossless. *)
 Example C40_nonvacuous :
-  let s := run relab_nv 2 1 [(4, 7)] 2 ops_nv in
+  let s := run relab_nv 2 1 [(4, 7)] false 2 ops_nv in
   lossy s = false /\ flushrace s = false /\ quiescent s = true /\ panicked s = false
   /\ map i_id (delivered (log s)) = [0; 2; 1; 6]
   /\ map i_id (attempted (log s)) = [0; 2; 0; 2; 1; 6]
@@ -110,3 +117,10 @@ Example C40_nonvacuous :
   /\ length (shards s) = 3%nat
   /\ (n_old s, n_dropped s, n_unint s) = (1, 1, 1).
 Proof. exact nonvacuous. Qed.
+
+(* The interleaving of C40_no_dup_old_refuted on the code as it is now: each sample once. *)
+Example C40_race_regression :
+  let s := run relab_id 3 1 [] false 1 ops_race in
+    all_ok (log s) = true /\ lossy s = false /\ quiescent s = true /\ flushrace s = false
+    /\ map i_id (attempted (log s)) = [0; 1].
+Proof. exact race_regression. Qed.
